@@ -18,7 +18,10 @@ mod roundtrip;
 use noodles_bam as bam;
 use noodles_bcf as bcf;
 use noodles_cram as cram;
-use noodles_csi::{self as csi, binning_index::index::reference_sequence::index::{BinnedIndex, LinearIndex}};
+use noodles_csi::{
+    self as csi,
+    binning_index::index::reference_sequence::index::{BinnedIndex, LinearIndex},
+};
 use noodles_fasta as fasta;
 use noodles_tabix as tabix;
 use noodles_vcf as vcf;
@@ -432,7 +435,9 @@ fn run_witness(name: &str, o: &mut CaseOut) {
         //    ancestor walk stops there and loffset(4681) stays 200 (index equal after the round trip).
         //  * (4,2): A = [1, 100] -> bin 1, B = [5, 6] -> leaf bin 9 (child of 1).
         "csi-indexer-loffset-rewrite" => {
-            for (ms, d, a_end, b, label) in [(14u8, 5u8, 20_000usize, (10usize, 20usize), "direct-parent"), (14, 5, 200_000, (10, 20), "parent-chain-broken"), (4, 2, 100, (5, 6), "direct-parent-small")] {
+            for (ms, d, a_end, b, label) in
+                [(14u8, 5u8, 20_000usize, (10usize, 20usize), "direct-parent"), (14, 5, 200_000, (10, 20), "parent-chain-broken"), (4, 2, 100, (5, 6), "direct-parent-small")]
+            {
                 let st = rt::Stream { recs: vec![(0, 1, a_end, true, (100, 200)), (0, b.0, b.1, true, (200, 300))], unplaced: vec![], nrefs: 1, shape: label.into() };
                 match rt::drive::<BinnedIndex>(&st, ms, d, None) {
                     Ok(ix) => {
@@ -446,22 +451,14 @@ fn run_witness(name: &str, o: &mut CaseOut) {
             }
         }
         "fai-non-utf8-name" => {
-            let ix = fasta::fai::Index::from(vec![fasta::fai::Record::new(
-                b"sq\xff0".to_vec(),
-                8,
-                6,
-                std::num::NonZero::new(4).unwrap(),
-                std::num::NonZero::new(5).unwrap(),
-            )]);
+            let ix = fasta::fai::Index::from(vec![fasta::fai::Record::new(b"sq\xff0".to_vec(), 8, 6, std::num::NonZero::new(4).unwrap(), std::num::NonZero::new(5).unwrap())]);
             let back = rt::rt_fai(&ix, None);
             rt::judge_fai("arbitrary", &ix, back, o);
             o.fps.push(rt::fp("fai", "witness", "", ""));
         }
         "crai-two-records" => {
-            let ix: cram::crai::Index = vec![
-                cram::crai::Record::new(Some(0), noodles_core::Position::new(10), 100, 26, 200, 300),
-                cram::crai::Record::new(Some(0), noodles_core::Position::new(150), 80, 26, 500, 280),
-            ];
+            let ix: cram::crai::Index =
+                vec![cram::crai::Record::new(Some(0), noodles_core::Position::new(10), 100, 26, 200, 300), cram::crai::Record::new(Some(0), noodles_core::Position::new(150), 80, 26, 500, 280)];
             let back = rt::rt_crai(&ix, None);
             rt::judge_crai("arbitrary", &ix, back, o);
             o.fps.push(rt::fp("crai", "witness", "", ""));
